@@ -114,6 +114,12 @@ def rule_depth(ctx, res):
     for name, m in sorted(c.methods.items()):
         if not name.startswith('_walk_'):
             continue
+        # handlers of parser node types only (a helper that merely shares the
+        # prefix is analysed where it is called)
+        from .c09 import _schema
+        sch = _schema(ctx)
+        if sch is not None and name[6:] not in sch:
+            continue
         touches = any(isinstance(n, ast.Attribute) and n.attr == '_indent'
                       for n in walk_own(m.node))
         try:
@@ -256,7 +262,8 @@ def rule_order(ctx, res):
     ind = [s for s in subs if any(p[0] == 'spaces' for p in s.repl)]
     ok = len(ind) >= 2
     for s in ind:
-        txt = ast.unparse(s.node.value.args[1])
+        txt = ast.unparse(getattr(s, 'repl_expr', None) or
+                          s.node.value.args[1])
         ok = ok and 'self._indent_mult' in txt and 'self._indent' in txt.replace(
             'self._indent_mult', '')
     res.check(ok, 'R-C10-order', q, 'indentation = width * depth spaces',
